@@ -18,6 +18,9 @@ Record obs := mkO {
 
 Definition alldims (D : nat) (p : nat -> bool) : bool := forallb p (seq 0 D).
 
+(* the theorems assume positive weights; with a weight <= 0 in play nothing is claimed *)
+Definition weights_pos (os : list obs) : bool := forallb (fun o => Z.ltb 0 (o_w o)) os.
+
 (* guarantee <= deserved <= max(guarantee, realCapability), deserved <= max(guarantee, request) *)
 Definition law_bounds_q (D : nat) (o : obs) : bool :=
   alldims D (fun j =>
@@ -29,12 +32,13 @@ Definition law_bounds_q (D : nat) (o : obs) : bool :=
        | Some c => Qle_bool d (qmax g c + slack)
        end
     && Qle_bool d (qmax g (val0 (cnth (o_req o) j)) + slack)).
-Definition law_bounds (D : nat) (os : list obs) : bool := forallb (law_bounds_q D) os.
+Definition law_bounds (D : nat) (os : list obs) : bool := negb (weights_pos os) || forallb (law_bounds_q D) os.
 
 Definition qsum (l : list Q) : Q := fold_right Qplus 0 l.
 
 (* sum of deserved <= total + sum of guarantees, per dimension *)
 Definition law_sum (D : nat) (total : vec) (os : list obs) : bool :=
+  negb (weights_pos os) ||
   alldims D (fun j =>
     Qle_bool (qsum (map (fun o => val0 (cnth (o_des o) j)) os))
              (val0 (cnth total j) + qsum (map (fun o => val0 (cnth (o_gua o) j)) os) + slack)).
@@ -57,10 +61,29 @@ Definition law_overused (D : nat) (os : list obs) : bool := forallb (law_overuse
 Definition same_demand (a b : obs) : bool :=
   vdeq (o_gua a) (o_gua b) && vdeq (o_rcap a) (o_rcap b) && vdeq (o_req a) (o_req b).
 Definition law_weight (D : nat) (os : list obs) : bool :=
+  negb (weights_pos os) ||
   forallb (fun a => forallb (fun b =>
     if same_demand a b && Z.leb (o_w a) (o_w b)
     then alldims D (fun j => Qle_bool (val0 (cnth (o_des a) j)) (val0 (cnth (o_des b) j) + eps + slack))
     else true) os) os.
+
+(* realCapability reserves the guarantees of all OTHER queues:
+     realCapability_q <= max(0, total - totalGuarantee) + guarantee_q
+                       = max(guarantee_q, total - sum_{q' <> q} guarantee_q')
+   [tg] is recomputed by the harness from the Queue objects (every queue, whatever its state
+   and whether or not it has jobs), not read from the plugin.  [unbounded = true]: a missing
+   cell of [total] means "no bound" (hierarchical capacity: the parent inherits MaxFloat64). *)
+Definition law_reserve (unbounded : bool) (D : nat) (total tg : vec) (os : list obs) : bool :=
+  forallb (fun o => alldims D (fun j =>
+    match cnth (o_rcap o) j with
+    | None => true
+    | Some c =>
+      match cnth total j with
+      | None => if unbounded then true
+                else Qle_bool c (val0 (cnth (o_gua o) j) + slack)
+      | Some t => Qle_bool c (qmax 0 (t - val0 (cnth tg j)) + val0 (cnth (o_gua o) j) + slack)
+      end
+    end)) os.
 
 (* tolerant comparison of a model value with an observed one *)
 Definition close (x y : Q) : bool :=
